@@ -128,5 +128,8 @@ SPEC = dict(
                      ("current_best_expectation_value", "current_best_expectation_value", Opt(Q)),
                      ("population_evaluations", "population_evaluations", List(R))],
              returns=UNIT),
+        # the configuration's only guard: at least one of the three limits is configured (without one a solve never ends)
+        dict(py="EvolvingAnsatzMinimumEigensolverConfiguration.__post_init__", gen="Config_post_init",
+             extra_params=TYPES5, params=[("self", "self", Config)], returns=UNIT),
     ],
 )
